@@ -71,6 +71,13 @@ def _dep_result(dep, loader):
     res = {'instances': [list(i) for i in sub.instances], 'findings': sub.findings, 'configs': sub.configs}
     try:
         os.makedirs(cdir, exist_ok=True)
+        # keep the cache small: results of at most eight trees
+        base = os.path.dirname(cdir)
+        ents = sorted((os.path.getmtime(os.path.join(base, d)), d) for d in os.listdir(base))
+        for _, d in ents[:-8]:
+            if os.path.join(base, d) != cdir:
+                import shutil
+                shutil.rmtree(os.path.join(base, d), ignore_errors=True)
         tmp = cfile + '.%d' % os.getpid()
         with open(tmp, 'w') as fh:
             json.dump(res, fh, default=str)
